@@ -519,7 +519,61 @@ def _parameters_named_unlike_their_fields(ctx):
             ctx.violation(f"directed:parameter-named-unlike-its-field:{label}", f"{label}: {out!r:.200}, the constructor call the linking rules fix gives {want()!r}", {"case": label})
 
 
-DIRECTED = {"linking-rules": _directed, "recipe-of-this-request": _recipe_of_this_request, "parameters-named-unlike-their-fields": _parameters_named_unlike_their_fields}
+def _configured_link_that_cannot_be_built(ctx):
+    """The first matching link_function of an OPTIONAL destination field whose own parameter has nothing to take its value from, next to
+    allow_unlinked_optional: the field is linked (to that function), so either the converter is refused or the field holds the function's
+    result - never the default, as if no link had been configured (report of a round-8 agent: the terminal refusal of the function linking was
+    swallowed together with 'no linking found')."""
+    @dataclass
+    class Src:
+        a: int
+        c: int
+
+    @dataclass
+    class Dst:
+        a: int
+        c: int = 7
+
+    @dataclass
+    class SrcO:
+        inner: Src
+
+    @dataclass
+    class DstO:
+        inner: Dst
+        tail: int = 0
+
+    def unbuildable(model, missing: int):
+        return 99
+
+    def unbuildable_kw(model, *, missing: int):
+        return 99
+
+    def buildable(model, *, a: int):
+        return 90 + a
+    cases = []
+    for fname, fn, want_c in (("positional", unbuildable, None), ("keyword-only", unbuildable_kw, None), ("buildable", buildable, 91), ("none", None, 3)):
+        for order in ("function-first", "policy-first"):
+            def recipe(dst_pred, fn=fn, order=order):
+                r = ([link_function(fn, dst_pred)] if fn is not None else []) + [allow_unlinked_optional()]
+                return r if order == "function-first" else list(reversed(r))
+            cases.append((f"{fname}/{order}/get_converter", lambda recipe=recipe: get_converter(Src, Dst, recipe=recipe(P[Dst].c))(Src(1, 3)), None if want_c is None else Dst(1, want_c)))
+            cases.append((f"{fname}/{order}/retort", lambda recipe=recipe: ConversionRetort(recipe=recipe(P[Dst].c)).convert(Src(1, 3), Dst), None if want_c is None else Dst(1, want_c)))
+            cases.append((f"{fname}/{order}/nested", lambda recipe=recipe: get_converter(SrcO, DstO, recipe=recipe(P[Dst].c))(SrcO(Src(1, 3))), None if want_c is None else DstO(Dst(1, want_c))))
+    for name, run, want in cases:
+        out = attempt(run)
+        ctx.evaluated(("directed-unbuildable-link", name))
+        ctx.count("directed_cases")
+        if want is None:
+            if out.kind == "ok":
+                ctx.violation("directed:unbuildable-link-function-dropped", f"{name}: a converter was produced and returned {out.value!r}: the field is linked to a function that cannot be called, yet holds its default", {"case": name})
+            elif type(out.exc).__name__ != "ProviderNotFoundError":
+                ctx.violation(f"directed:unbuildable-link-function:refusal-is-{type(out.exc).__name__}", f"{name}: {out!r:.200}", {"case": name})
+        elif out.kind != "ok" or out.value != want:
+            ctx.violation("directed:link-function-next-to-unlinked-optional-policy", f"{name}: {out!r:.200}, expected {want!r}", {"case": name})
+
+
+DIRECTED = {"configured-link-that-cannot-be-built": _configured_link_that_cannot_be_built, "linking-rules": _directed, "recipe-of-this-request": _recipe_of_this_request, "parameters-named-unlike-their-fields": _parameters_named_unlike_their_fields}
 from ..suite_leg import make as _suite_leg  # noqa: E402
 
 DIRECTED["suite-under-monitors"] = _suite_leg("C13")
